@@ -1,6 +1,6 @@
 #!/bin/bash
-# tools/import_seed.sh Cxx mN : copy a sub-agent's seeded change into /verif/seeded/Cxx-mN/ (patch, demo, notes)
-p="$1"; m="$2"; src="/tmp/seed/$p/out/$m"; dst="/verif/seeded/$p-$m"
+# tools/import_seed.sh Cxx mN [root=/tmp/seed] [tag] : copy a sub-agent's seeded change into /verif/seeded/Cxx-mN/ (patch, demo, notes)
+p="$1"; m="$2"; root="${3:-/tmp/seed}"; tag="${4:-}"; src="$root/$p/out/$m"; dst="/verif/seeded/$p-$tag$m"
 [ -f "$src/patch.diff" ] && [ -f "$src/demo.py" ] || { echo "missing $src"; exit 1; }
 mkdir -p "$dst"; cp "$src/patch.diff" "$src/demo.py" "$dst/"; [ -f "$src/notes.md" ] && cp "$src/notes.md" "$dst/notes.md"
 echo "imported $dst"
